@@ -1253,7 +1253,7 @@ def check_C01(res):
     finish_codec(res)
 
 
-C01_THEOREMS = ['Blf.Props.C01_object_roundtrip']
+C01_THEOREMS = ['Blf.Props.C01_object_roundtrip', 'Blf.Props.parsable_of_exact', 'Blf.Props.C01_stream_roundtrip', 'Blf.Props.C01_file_roundtrip', 'Blf.Props.C01_delivered_length', 'Blf.Gen.exact_all', 'Blf.Gen.exact_hdr']
 
 
 def file_setup(res, prop, theorems):
@@ -2347,8 +2347,8 @@ def struct_pack(fmt, v):
 
 
 import glob as glob_mod
-C04_THEOREMS = []
-C05_THEOREMS = []
+C04_THEOREMS = ['Blf.Props.C04_container', 'Blf.Props.C04_file_layout', 'Blf.Props.C04_payload_is_stream', 'Blf.Props.C04_full_containers', 'Blf.Props.C04_container_sizes', 'Blf.Props.C04_stored_inflates']
+C05_THEOREMS = ['Blf.Props.C05_uncompressed_size', 'Blf.Props.C05_object_count', 'Blf.Props.C05_file_size', 'Blf.Props.C05_restore_point_offset', 'Blf.Props.C05_caller_fields_verbatim', 'Blf.Props.C05_reader_counters', 'Blf.Props.C05_count_matches']
 C08_THEOREMS = []
 C09_THEOREMS = []
 C10_THEOREMS = ['Blf.Props.C10_decoder_memory_safe', 'Blf.Props.C10_read_session_ends_without_ub', 'Blf.Props.C10_parser_progress']
